@@ -822,6 +822,8 @@ class LibsModel:
             return [el.w(unpack_pos=k, unpack_n=n) for k in range(n)]
         if v.ty == 'tuple' and v.tuple_of is not None and n == 3:
             return [AV(ty='int', axis=k) for k in range(3)]
+        if v.ty == 'tuple' and v.shapeof is not None and n == 3:
+            return [AV(ty='int', axis=k, shape_of=(f'd{k}',)) for k in range(3)]
         return None
 
     # ------------------------------------------------------------------ subscripts on external values
